@@ -1646,7 +1646,70 @@ def check_C18(run, replay=None):
     return run.finish()
 
 
-CHECKS = {"C18": check_C18, "C14": check_C14, "C01": check_C01, "C02": check_C02, "C10": check_C10, "C09": check_C09, "C12": check_C12, "C15": check_C15, "C19": check_C19, "C13": check_C13, "C03": check_C03, "C04": check_C04, "C05": check_C05, "C06": check_C06, "C07": check_C07, "C08": check_C08, "C11": check_C11, "C16": check_C16, "C17": check_C17}
+# ---- C20: concurrency ---------------------------------------------------------------
+
+def check_C20(run, replay=None):
+    regen_translator(run, "access")
+    proof_ok = run.proof_side()
+    acc_txt = open(os.path.join(ROOT, "coq", "theories", "Gen", "SharedAccess.txt")).read()
+    writes = [l.strip() for l in acc_txt.split("\n") if " written in " in l]
+    cases, impl, model, meta = run.run_vh(["-cases", replay] if replay else None, timeout=6000)
+    dline = {}
+    for c in cases:
+        if c.startswith("D "):
+            dline[c.split(" ", 2)[1]] = c
+    nbad = fam_report_bad_packages(run, meta)
+    n = calls = 0
+    bad = []
+    for i, c in enumerate(cases):
+        if not c.startswith("CONC ") or impl[i].startswith("SKIP"):
+            continue
+        n += 1
+        kv = parse_kv(impl[i])
+        calls += int(kv.get("calls", "0") or 0)
+        why = None
+        if kv.get("impl") != "done":
+            why = "the concurrent run did not complete: " + impl[i][:300]
+        elif kv.get("races", "0") != "0":
+            why = "the race detector reported %s data race(s):\n%s" % (kv["races"], bytes.fromhex(kv.get("report", "")).decode("utf8", "replace")[:4000])
+        elif kv.get("mismatches", "0") != "0":
+            why = "a caller received the digest of another request's parameters (or a failed call): " + \
+                  bytes.fromhex(kv.get("first", "")).decode("utf8", "replace")[:3000]
+        elif kv.get("ops", "0") == "0":
+            why = "no operation could be exercised"
+        if why:
+            bad.append((i, why))
+    for (i, why) in bad[:3]:
+        f = cases[i].split(" ")
+        run.violation({"property": run.prop, "case": cases[i], "context": [dline.get(f[1], "")], "broken": why}, cases[i])
+    run.coverage.update({
+        "rule": "REGENERATED OBLIGATION: the translator (go/packages + go/types over server and client files of ~150 freshly generated packages) "
+                "lists every use of a package-level variable and of a field of the shared *API / *Client receivers in function bodies and "
+                "classifies it read / write (assignment target incl. through index/selector, ++/--, address taken, range assignment); all must be "
+                "reads (C20_shared_state_is_only_read by computation). RUN: packages whose operations (typed path variables, query/header "
+                "parameters incl. arrays, JSON bodies, bearer/apiKey security, 2 middlewares) answer with an X-Echo header are built with -race; "
+                "G goroutines x I iterations call random operations through ONE API value and its ONE LocalClient with values unique to "
+                "(goroutine, iteration); the handler echoes the dump of what IT parsed, the caller compares it with the dump of what it sent; "
+                "GOMAXPROCS 1, 4, 16; race reports are read from the driver's stderr.",
+        "evaluations": n, "concurrent_calls": calls, "failures": len(bad),
+        "programs": meta.get("packages_ok", 0), "packages_not_built": nbad,
+        "shared_access_inventory": [l for l in acc_txt.split("\n") if l.startswith("==") or l.startswith("packages")],
+        "shared_writes": writes[:20],
+        "trusted_base": TRUSTED_COMMON + [
+            "PARTIAL: the Go memory model, net/http, encoding/json, httptest and user code (handlers, hooks, HTTPClient) are not modelled; "
+            "the run under the race detector covers them empirically",
+            "translator harness/cmd/vh/access.go: the set of shared locations (package-level variables; fields reached through *API and *Client "
+            "receivers) and its syntactic read/write classification are trusted; values reachable only through a request (params, bodies, "
+            "responses) are private by construction of the handler signature"],
+    })
+    if not proof_ok:
+        cf = dict(getattr(run, "coq_failure", {}), input=None, shared_writes=writes[:20])
+        if not bad:
+            run.violation(cf, None, note="no-failing-input-found")
+    return run.finish()
+
+
+CHECKS = {"C20": check_C20, "C18": check_C18, "C14": check_C14, "C01": check_C01, "C02": check_C02, "C10": check_C10, "C09": check_C09, "C12": check_C12, "C15": check_C15, "C19": check_C19, "C13": check_C13, "C03": check_C03, "C04": check_C04, "C05": check_C05, "C06": check_C06, "C07": check_C07, "C08": check_C08, "C11": check_C11, "C16": check_C16, "C17": check_C17}
 
 
 def setup():
